@@ -269,6 +269,25 @@ func mutateGrammar(r *rng, src []byte) []byte {
 // lone continuation and lead bytes: whatever looks at "the first few bytes".
 var shortHeads = []string{"", "\xef", "\xef\xbb", "\xef\xbb\xbf", "\xef\xbb\xbfA <- 'a'\n", "\xfe\xff", "\xff\xfe", "\xfe", "\xff", "\x00", "\xc3", "\xe2\x82", "\xf0\x9f\x98", "{", "}", "A", "A<", "A<-", "A <- ", "\n", "\r\n", "/", "//", "/*", "'", "\"", "[", "\\", "#", "%"}
 
+// crlfVariant is the same grammar as written on a system with other line
+// endings: every line feed, or only some of them, preceded by a carriage
+// return (a file edited on two systems).
+func crlfVariant(r *rng, src toolInput) toolInput {
+	all := r.chance(2, 3)
+	var b []byte
+	for _, c := range src.Grammar {
+		if c == '\n' && (all || r.chance(1, 2)) && (len(b) == 0 || b[len(b)-1] != '\r') {
+			b = append(b, '\r')
+		}
+		b = append(b, c)
+	}
+	in := src
+	in.Name = "crlf(" + src.Name + ")"
+	in.Class = "crlf"
+	in.Grammar = b
+	return in
+}
+
 func randomBytes(r *rng) []byte {
 	if r.chance(1, 3) {
 		h := shortHeads[r.intn(len(shortHeads))]
@@ -449,6 +468,95 @@ func genLRRecoveryN(r *rng, i int) toolInput {
 		name, rules = "digitnames", []string{"A", "A1"}
 	}
 	return toolInput{Name: name, Class: "genlr", Grammar: []byte(g), Rules: rules}
+}
+
+// genBig makes a grammar text of about the given size: a rule, a long stretch
+// of comment lines and blank space, and a last rule that the first one needs.
+// With broken set the text ends in a rule that is cut off, so the whole must
+// be rejected - by whatever way it reaches the tool, and however much of it a
+// buffer or a size limit holds at a time.
+func genBig(r *rng, size int, broken bool) toolInput {
+	var b strings.Builder
+	b.WriteString("{\npackage gen\n}\nA <- 'a' B\n")
+	line := "// " + strings.Repeat("padding ", 9) + "\n"
+	for b.Len() < size {
+		b.WriteString(line)
+		if r.chance(1, 50) {
+			b.WriteString("\n\t \n")
+		}
+	}
+	b.WriteString("B <- 'b'\n")
+	if broken {
+		b.WriteString("Tail <- (\n")
+	}
+	in := toolInput{Name: fmt.Sprintf("big(%d)", size), Class: "big", Grammar: []byte(b.String()), Rules: []string{"A", "B"}}
+	in.Flags = drawFlags(r, in.Rules, false)
+	in.Flags = removeArgs(in.Flags, "-debug", 1)
+	return in
+}
+
+// genManyErrors makes grammars in which the front-end meets many errors it
+// can recover from and goes on: a file saved in another encoding (bytes that
+// are not UTF-8 in comments, strings and code blocks), literals and classes
+// with invalid escapes, inverted ranges. n says how many.
+func genManyErrors(r *rng, n int) toolInput {
+	var b strings.Builder
+	b.WriteString("{\npackage gen\n}\n")
+	kind := r.intn(4)
+	for i := 0; i < n; i++ {
+		switch kind {
+		case 0: // Latin-1 text in comments
+			b.WriteString("// r\xe8gle num\xe9ro " + fmt.Sprint(i) + " \xe0 v\xe9rifier\n")
+			if i%8 == 0 {
+				fmt.Fprintf(&b, "R%d <- 'a'\n", i)
+			}
+		case 1: // invalid escapes in literals
+			fmt.Fprintf(&b, "R%d <- 'a\\q' \"b\\%c\"\n", i, "qzQ8!"[r.intn(5)])
+		case 2: // classes: invalid escapes, inverted ranges, unknown Unicode classes
+			fmt.Fprintf(&b, "R%d <- %s\n", i, r.pick([]string{"[\\q]", "[z-a]", "[\\p{Nope}]", "[a-\\q]", "[\\x1]"}))
+		default: // Latin-1 bytes in strings and code blocks
+			fmt.Fprintf(&b, "R%d <- 'caf\xe9' { return \"na\xefve\", nil }\n", i)
+		}
+	}
+	b.WriteString("Last <- 'z'\n")
+	in := toolInput{Name: fmt.Sprintf("manyerrs(%d,%d)", kind, n), Class: "manyerrs", Grammar: []byte(b.String()), Rules: []string{"R0", "Last"}}
+	in.Flags = drawFlags(r, in.Rules, false)
+	return in
+}
+
+// placementCount is the size of the placement matrix of genPlacement.
+const placementCount = 4 * 10
+
+// genPlacement enumerates small grammars in which one kind of code block
+// occurs exactly once, inside one kind of enclosing expression (lookahead,
+// repetition, option, alternative, label, recovery expression, ...): what the
+// builder emits depends on which kinds of blocks a grammar contains, and it
+// finds that out by walking the grammar.
+func genPlacement(r *rng, i int) toolInput {
+	items := []string{
+		"#{ return nil } 'x'",
+		"&{ return true, nil } 'x'",
+		"!{ return false, nil } 'x'",
+		"'x' { return nil, nil }",
+	}
+	containers := []string{
+		"&( %s )", "!( %s )", "( %s )?", "( %s )*", "( %s )+", "( 'y' / %s )", "l:( %s )",
+		"( 'y' //{e} ( %s ) )", "( %s //{e} 'y' )", "&( !( ( %s )? ) )",
+	}
+	i = i % placementCount
+	item, cont := items[i%len(items)], containers[i/len(items)]
+	g := "{\npackage gen\n}\nA <- " + fmt.Sprintf(cont, item) + " B\nB <- [a-z]+ %{e}?\n"
+	if !strings.Contains(cont, "{e}") {
+		g = strings.Replace(g, " %{e}?", "", 1)
+	}
+	in := toolInput{Name: "placement", Class: "gen", Grammar: []byte(g), Rules: []string{"A", "B"}}
+	in.Flags = drawFlags(r, in.Rules, false)
+	// the template drops the state machinery under -optimize-parser unless the
+	// grammar has state blocks: that combination always, the others half the time
+	if (i%len(items) == 0 || r.chance(1, 2)) && !contains(in.Flags, "-optimize-parser") {
+		in.Flags = append(in.Flags, "-optimize-parser")
+	}
+	return in
 }
 
 // genOptShape draws grammars whose rules only become literals (or classes)
